@@ -20,15 +20,17 @@ def main():
     if os.path.exists(rpanic.TABLE):
         table = json.load(open(rpanic.TABLE))
     maxc = Counter()
+    seen_in = {}
     for cfg in configs:
         crate = cli.load_crate(cfg)
         cnt = Counter(s["key"] for s in rpanic.enumerate_sites(crate, ALL))
         for k, n in cnt.items():
             maxc[k] = max(maxc[k], n)
+            seen_in.setdefault(k, []).append(cfg)
     out = {}
     for k, n in sorted(maxc.items()):
         old = table.get(k, {})
-        out[k] = {"count": n, "reason": old.get("reason", "UNREVIEWED")}
+        out[k] = {"count": n, "reason": old.get("reason", "UNREVIEWED"), "configs": sorted(seen_in[k])}
     os.makedirs(os.path.dirname(rpanic.TABLE), exist_ok=True)
     json.dump(out, open(rpanic.TABLE, "w"), indent=0, sort_keys=True)
     print(len(out), "rows;", sum(1 for v in out.values() if v["reason"] == "UNREVIEWED"), "unreviewed")
